@@ -47,4 +47,21 @@ theorem lookupRuns_le (runs : List (Nat × Nat)) (h : okRuns runs = true) (n d :
       apply ih h.2
       exact Nat.le_trans h.1 (utf8SizeNat_mono (by omega))
 
+theorem getD_append_left' {α} (l₁ l₂ : List α) (i : Nat) (d : α) (h : i < l₁.length) :
+    (l₁ ++ l₂).getD i d = l₁.getD i d := by
+  simp [List.getD_eq_getElem?_getD, List.getElem?_append_left h]
+
+theorem getD_append_right' {α} (l₁ l₂ : List α) (i : Nat) (d : α) (h : l₁.length ≤ i) :
+    (l₁ ++ l₂).getD i d = l₂.getD (i - l₁.length) d := by
+  simp [List.getD_eq_getElem?_getD, List.getElem?_append_right h]
+
+theorem mem_of_mem_dropLast {α} {a : α} : ∀ {l : List α}, a ∈ l.dropLast → a ∈ l
+  | [], h => by simp at h
+  | [_], h => by simp at h
+  | x :: y :: r, h => by
+    rw [List.dropLast_cons_cons] at h
+    rcases List.mem_cons.mp h with h | h
+    · simp [h]
+    · exact List.mem_cons_of_mem _ (mem_of_mem_dropLast h)
+
 end TW
